@@ -21,8 +21,10 @@ META = {
             'consistent ClientHello; the resumed connection has the original parameters; altered/forged/foreign tickets never '
             'resume (ideal AEAD, stated as section hypotheses); invalidated sessions never resume; when the server declines both '
             'ends complete a full handshake -- REFUTED for TLS<=1.2 tickets (client aborts), proved for session-ID, TLS 1.3 and '
-            'for the repaired client.  The model is run by vm_compute on the same random and systematic histories as live '
-            'TLSConnection pairs and compared per connection.',
+            'for the repaired client.  TLS 1.3 PSK soundness is PARTIAL (no lifetime, server name, suite: refuted with witnesses); '
+            'server-side invalidation is proved for the session-ID path and refuted for stateless tickets.  The model is run by '
+            'vm_compute on the same random and systematic histories as live TLSConnection pairs and compared per connection; '
+            'a direct oracle written from the property text judges every live connection.',
     'note': 'Trusted: Coq kernel + vm_compute; the hand model (tied by correspondence only, not by translation); symbolic AEAD/PRF '
             '(hypotheses open_seal/open_other_key/open_tamper/open_junk, binder = equality of secrets); suite negotiation of a full '
             'handshake and the acceptable-suite list are oracles taken from the implementation; only certificate handshakes '
@@ -70,7 +72,7 @@ def run(ctx):
     for i, (name, cfgs, events) in enumerate(c13_scen.scenarios(thorough=not quick)):
         jobs.append({'seed': 1000000 + i, 'cfgs': cfgs, 'events': events, 'name': name})
     n_sys = len(jobs)
-    n_rand = 150 if quick else 4000
+    n_rand = 150 if quick else 3000
     mc, me = (6, 18) if quick else (10, 30)
     for _ in range(n_rand):
         jobs.append({'seed': ctx.rng.randrange(1 << 30), 'max_conns': mc, 'max_events': me})
@@ -101,10 +103,22 @@ def run(ctx):
     # ---- the same histories on the Coq model
     if res['model_ok']:
         lits = [L.history_lit(r) for _, r in good]
-        bad, errs = vlib.coq_bad_indices('C13', ['Model.C13_Resume'], 'list scfg * list event * list (list Z)',
-                                         '(chk_hist false)', lits, shard=max(4, (len(lits) + 15) // 16) if quick else 60)
+        (bad, bad_fixed), errs = vlib.coq_bad_indices(
+            'C13', ['Model.C13_Resume'], 'list scfg * list event * list (list Z)',
+            ['(chk_hist false)', '(chk_hist true)'], lits, shard=max(4, (len(lits) + 15) // 16) if quick else 60,
+            timeout=900 if quick else 3000)
+        ctx.log('model vs implementation: %d histories, %d disagree (%d with the repaired-client model), %d evaluation errors'
+                % (len(lits), len(bad), len(bad_fixed), len(errs)))
+        if bad and not bad_fixed and not errs:
+            # the implementation behaves like the model with the client repair of proposed_fixes/C13-1.diff
+            ctx.notes.append('implementation agrees with the repaired-client model (fixed=true) on all histories '
+                             'and differs from the unrepaired one on %d: F1 is fixed in this tree' % len(bad))
+            ctx.log(ctx.notes[-1])
+            ctx.cov['model_variant'] = 'fixed=true'
+            bad = []
+        else:
+            ctx.cov['model_variant'] = 'fixed=false'
         ctx.count('model-vs-impl(vm_compute):histories', len(lits), [('agree', len(lits) - len(bad))])
-        ctx.log('model vs implementation: %d histories, %d disagree, %d evaluation errors' % (len(lits), len(bad), len(errs)))
         for e in errs:
             tie_broken = 'history evaluation failed: ' + e[:400]
             ctx.log(e[-1200:])
@@ -145,13 +159,13 @@ def replay(ctx, path):
         print('nothing to replay (no history stored):', r.get('what'))
         return 1
     out = L.run_history({'seed': r.get('seed', 1), 'cfgs': r['cfgs'], 'events': r['events']})
-    for e, in zip(L_slim(out['events'])):
-        print(' ', e)
-    print('observations per connection:', out['obs'])
+    for c in out['cfgs']:
+        print('server configuration:', c)
+    for e in slim_events(out['events']):
+        print('  event:', e)
+    print('observations per connection (see Model/C13_Resume.v observe):')
+    for o in out['obs']:
+        print('  ', o)
     for key, what, detail in out['verdicts']:
         print('ORACLE: [%s] %s' % (key, what))
     return 1 if out['verdicts'] else 0
-
-
-def L_slim(events):
-    return slim_events(events)
